@@ -291,6 +291,18 @@ class VBuilder:
         return d.hugr
 
     def val(self, v):
+        """the value object of a descriptor; equal composite sub-descriptors of one builder are ONE object every other
+        time (the same value object at two positions of a tuple, an array, a sum)"""
+        if v[0] in ("sum", "tuple", "some", "left", "right", "int", "array", "list") and not self.one_shot:
+            key = repr(v)
+            if len(key) % 2 == 0:
+                memo = self.__dict__.setdefault("_val_memo", {})
+                if key not in memo:
+                    memo[key] = self._val(v)
+                return memo[key]
+        return self._val(v)
+
+    def _val(self, v):
         from hugr import val
 
         k = v[0]
